@@ -37,7 +37,7 @@ func runC24Xfcc(c *Ctx) {
 		// the quote state: toggled exactly on '"', and the escape skip needs inQuotes
 		tog := false
 		Instrs(sp, func(in ssa.Instruction) {
-			if p, ok := in.(*ssa.Phi); ok && p.Comment == "inQuotes" {
+			if p, ok := in.(*ssa.Phi); ok && u.VarName(p) == "inQuotes" {
 				for i, e := range p.Edges {
 					if un, isU := e.(*ssa.UnOp); isU && u.Describe(un) == "!inQuotes" {
 						pred := p.Block().Preds[i]
@@ -208,7 +208,7 @@ func runC24Xfcc(c *Ctx) {
 			if !ok {
 				return
 			}
-			if al, isA := st.Addr.(*ssa.Alloc); isA && al.Comment == "elem" {
+			if al, isA := st.Addr.(*ssa.Alloc); isA && u.VarName(al) == "elem" {
 				d := u.Describe(st.Val)
 				g := G(in)
 				which := "first"
